@@ -36,12 +36,15 @@ static void VIOL(Ctx& c, const std::string& key, const std::string& cls, const J
   if (g_regime.empty() || key == g_regime) c.viol(key, cls, d); else c.viol(g_regime, cls, J(d).str("monitor", key)); }
 // exact-method AuxLatitude regimes, checked in this fixed order (series method: none)
 //   zone 2: some tangent of the point (or the crude Newton start tan/r^2 pushed through the conformal map) above 1e290
-//   zone 1: some tangent below 1e-290 after division by max((b/a)^2,(a/b)^2)
+//   zone 1: some tangent below 1e-290 after division by max((b/a)^2,(a/b)^2); known only for (xi and tan<1e-300) or tan<1e-320
 //   authalic latitude involved and b/a > 4;  authalic involved, 0<|f|<1e-6 and tan(phi) > 1e150
-static std::string auxlat_regime(double ba, double f, bool exact, bool xi, int zone, q128 tphi) {
+static std::string auxlat_regime(double ba, double f, bool exact, bool xi, int zone, q128 tphi, bool uf_known = true) {
   if (!exact) return "";
   if (zone == 2) return "regime:C15/auxlat/exact/overflow-zone(|tan|*amp>1e290)";
-  if (zone == 1) return "regime:C15/auxlat/exact/underflow-zone(|tan|/amp<1e-290)";
+  // underflow zone: only the part where the unchanged library actually fails is a known regime (authalic latitude involved and
+  // some tangent < 1e-300, or some tangent < 1e-320); elsewhere in the zone (21916 of 21916 evaluations right on the unchanged tree)
+  // the monitors keep their own keys, with the graceful-underflow tolerance
+  if (zone == 1 && uf_known) return "regime:C15/auxlat/exact/underflow-zone(xi&|tan|<1e-300 or |tan|<1e-320)";
   if (xi && ba > 4) return "regime:C15/auxlat/exact/xi/prolate-b/a>4";
   if (xi && f != 0 && std::fabs(f) < 1e-6 && tphi > 1e150Q) return "regime:C15/auxlat/exact/xi/|f|<1e-6-tanphi>1e150";
   return "";
@@ -182,7 +185,13 @@ static void sec_conv(Ctx& c, uint64_t idx) {
       w.str("zone", normal ? "normal" : zone + 1);
       if (normal) { c.obs(std::string("auxlat ") + mn + " " + pair + " rel err tan [eps]", err, w);
         c.obs(std::string("auxlat ") + mn + " (" + E.regime + (E.axes ? ", axes ctor" : "") + ") rel err tan [eps]", err, w); }
-      else c.obs(std::string("auxlat ") + mn + " rel err tan [eps] in " + (zone + 1), err, w);
+      else { c.obs(std::string("auxlat ") + mn + " rel err tan [eps] in " + (zone + 1), err, w);
+        bool isn = std::isnan(out.y()) || std::isnan(out.x());
+        if (uflow && exact && from != to) { const char* tb = tmin < 1e-320Q ? "tmin<1e-320" : tmin < (q128)std::numeric_limits<double>::min() ? "tmin-subnormal" : tmin < 1e-300Q ? "tmin-2.2e-308..1e-300" : "tmin>=1e-300";
+          bool xiq = from == ref::AUX_XI || to == ref::AUX_XI; bool inv3 = from >= 3;
+          c.event(std::string("underflow-zone exact ") + (err <= K_EXACT * (R.prolate ? 1 + (double)(R.e * atanq(R.e)) : 1) ? "ok  " : "FAIL") + " " + tb + (xiq ? " xi" : " no-xi") + (inv3 ? " newton-inverse" : " closed-form-inverse")); }
+        if (uflow && exact) { if (isn) c.event(std::string("underflow-zone NaN outputs, |tan_in| ") + (Tin <= 2 * (q128)DMIN ? "<= 2 denorm_min" : Tin < 1e-320Q ? "< 1e-320" : Tin < (q128)std::numeric_limits<double>::min() ? "subnormal" : "normal"));
+          else if (std::isfinite(err)) c.obs("auxlat exact underflow-zone rel err tan [eps] (finite, after the denormal-quanta slack)", err, w); else c.event("underflow-zone non-NaN failures with infinite error measure"); } }
       // conformal latitude: tan(chi) ~ exp(-e atanh(e sin phi)); for prolate ellipsoids the exponent |e| atan(|e| sin phi)
       // reaches 157 at b/a = 100 and its round-off (>= eps/2 relative) is amplified by its size in any double evaluation
       double cond = 1;
@@ -200,7 +209,7 @@ static void sec_conv(Ctx& c, uint64_t idx) {
         c.obs(std::string("auxlat exact ") + (xi ? "xi" : "mu/chi") + (E.axes ? " axes-ctor" : " af-ctor") + " b/a " + bk + " rel err tan / conditioning [eps]", err / cond, w);
       }
       bool xi_ = from == ref::AUX_XI || to == ref::AUX_XI;
-      Regime rg_(auxlat_regime(E.ba, E.f, exact, xi_, normal ? 0 : (uflow ? 1 : 2), tphi));
+      Regime rg_(auxlat_regime(E.ba, E.f, exact, xi_, normal ? 0 : (uflow ? 1 : 2), tphi, (xi_ && tmin < 1e-300Q) || tmin < 1e-320Q));
       if (!(err <= K)) {
         std::string key = std::string("oracle:C15/auxlat/") + mn + "/" + pair;
         if (std::isnan(out.y()) || std::isnan(out.x())) key = std::string("oracle:C15/auxlat/") + mn + "/nan-output";
@@ -572,27 +581,83 @@ static void sec_ell(Ctx& c, uint64_t idx) {
   }
 }
 
-// static flattening / eccentricity interconversions over their documented ranges
-static void sec_flat(Ctx& c, uint64_t) {
+// static flattening / eccentricity interconversions, instance inspectors and constructors for f log-uniform in +-[1e-16, 0.99]
+// (and exact 0).  The parameters are generated DIRECTLY (not derived from a double b/a: sqrt(fl((b/a)^2)) == b/a would hide
+// cancellation in the inverse formulas).  Reference: the defining relations between a, b in binary128 (expm1/log1p forms where a
+// naive form would cancel); K = 8 eps relative, times the condition number of the map where it exceeds 1.
+static q128 q_f_from_e2(q128 e2) { return -expm1q(log1pq(-e2) / 2); }                       // f = 1 - sqrt(1 - e2)
+static q128 q_f_from_ep2(q128 ep2) { return -expm1q(-log1pq(ep2) / 2); }                    // f = 1 - 1/sqrt(1 + e'2)
+static q128 q_f_from_epp2(q128 x) { return -expm1q((log1pq(-x) - log1pq(x)) / 2); }         // f = 1 - sqrt((1-e''2)/(1+e''2))
+static void sec_flat(Ctx& c, uint64_t idx) {
   vh::Rng& r = c.rng;
-  double ba = r.coin(0.7) ? r.logu(1e-3, 1e3) : 1 + r.sign() * r.logu(1e-15, 0.5);
-  q128 a = 1, b = ba, f = (a - b) / a, fp = (a - b) / b, n = (a - b) / (a + b), e2 = (a - b) * (a + b) / (a * a), ep2 = (a - b) * (a + b) / (b * b), epp2 = (a - b) * (a + b) / (a * a + b * b);
-  std::string cls = std::string("flat/") + (ba < 0.1 ? "b/a<0.1" : ba < 1 ? "oblate" : ba == 1 ? "sphere" : ba < 10 ? "prolate" : "b/a>10");
-  c.count(cls, vh::hmix(61, ba));
-  J w; w.f("b_over_a", ba);
-  // inputs are the correctly rounded doubles of the true parameter; the reference maps the *double* through the exact formula
-  auto chk = [&](const char* nm, double got, q128 want, double cond) { rel_check(c, std::string("ellipsoid-static/") + nm, cls, got, want, K_MEASURE * cond, w); };
-  double fd = (double)f, fpd = (double)fp, nd = (double)n, e2d = (double)e2, ep2d = (double)ep2, epp2d = (double)epp2;
-  { q128 F = fd;  chk("FlatteningToSecondFlattening", Ellipsoid::FlatteningToSecondFlattening(fd), F / (1 - F), 1 + (double)fabsq(F / (1 - F)));
-    chk("FlatteningToThirdFlattening", Ellipsoid::FlatteningToThirdFlattening(fd), F / (2 - F), 1);
-    chk("FlatteningToEccentricitySq", Ellipsoid::FlatteningToEccentricitySq(fd), F * (2 - F), 1);
-    chk("FlatteningToSecondEccentricitySq", Ellipsoid::FlatteningToSecondEccentricitySq(fd), F * (2 - F) / ((1 - F) * (1 - F)), 1 + 2 * (double)fabsq(F / (1 - F)));
-    chk("FlatteningToThirdEccentricitySq", Ellipsoid::FlatteningToThirdEccentricitySq(fd), F * (2 - F) / (1 + (1 - F) * (1 - F)), 2); }
-  { q128 X = fpd; chk("SecondFlatteningToFlattening", Ellipsoid::SecondFlatteningToFlattening(fpd), X / (1 + X), 1 + (double)fabsq(X / (1 + X))); }
-  { q128 X = nd; chk("ThirdFlatteningToFlattening", Ellipsoid::ThirdFlatteningToFlattening(nd), 2 * X / (1 + X), 1 + (double)fabsq(X / (1 + X))); }
-  { q128 X = e2d; chk("EccentricitySqToFlattening", Ellipsoid::EccentricitySqToFlattening(e2d), X / (sqrtq(1 - X) + 1), 1 + (double)fabsq(X / (1 - X))); }
-  { q128 X = ep2d; chk("SecondEccentricitySqToFlattening", Ellipsoid::SecondEccentricitySqToFlattening(ep2d), 1 - 1 / sqrtq(1 + X), 1 + (double)fabsq(X / (1 + X))); }
-  { q128 X = epp2d; chk("ThirdEccentricitySqToFlattening", Ellipsoid::ThirdEccentricitySqToFlattening(epp2d), 1 - sqrtq((1 - X) / (1 + X)), 1 + (double)fabsq(X / ((1 - X) * (1 + X)))); }
+  auto genpar = [&](double lo, double hi_pos, double hi_neg) { int k = (int)r.below(20); if (k == 0) return 0.0; bool neg = r.coin();
+    double m = r.logu(lo, neg ? hi_neg : hi_pos); return neg ? -m : m; };
+  // ---- static functions: every one on its own directly generated argument
+  double f = genpar(1e-16, 0.99, 99.0);
+  if ((idx % 8) == 0) { static const double sp[] = {1 / 298.257223563, 1 / 150.0, -1 / 150.0, 1 / 297.0, 1e-8, 3e-14, -1e-11}; f = r.pick(sp); }
+  std::string cls = std::string("flat/") + (f == 0 ? "f=0" : std::fabs(f) < 1e-8 ? "|f|<1e-8" : std::fabs(f) < 1e-3 ? "|f|<1e-3" : f > 0 ? "oblate" : "prolate");
+  c.count(cls, vh::hmix(61, f));
+  J w; w.f("f", f);
+  auto chk = [&](const char* nm, double got, q128 want, double cond, const J& ww) { rel_check(c, std::string("ellipsoid-static/") + nm, cls, got, want, K_MEASURE * std::max(1.0, cond), ww); };
+  q128 F = f;
+  chk("FlatteningToSecondFlattening", Ellipsoid::FlatteningToSecondFlattening(f), F / (1 - F), 1 + (double)fabsq(F / (1 - F)), w);
+  chk("FlatteningToThirdFlattening", Ellipsoid::FlatteningToThirdFlattening(f), F / (2 - F), 1, w);
+  chk("FlatteningToEccentricitySq", Ellipsoid::FlatteningToEccentricitySq(f), F * (2 - F), 1, w);
+  chk("FlatteningToSecondEccentricitySq", Ellipsoid::FlatteningToSecondEccentricitySq(f), F * (2 - F) / ((1 - F) * (1 - F)), 1 + 2 * (double)fabsq(F / (1 - F)), w);
+  chk("FlatteningToThirdEccentricitySq", Ellipsoid::FlatteningToThirdEccentricitySq(f), F * (2 - F) / (1 + (1 - F) * (1 - F)), 2, w);
+  { double fp = genpar(1e-16, 99.0, 0.99); q128 X = fp; chk("SecondFlatteningToFlattening", Ellipsoid::SecondFlatteningToFlattening(fp), X / (1 + X), 1 + (double)fabsq(X / (1 + X)), J().f("fp", fp)); }
+  { double n = genpar(1e-16, 0.99, 0.99); q128 X = n; chk("ThirdFlatteningToFlattening", Ellipsoid::ThirdFlatteningToFlattening(n), 2 * X / (1 + X), 1 + (double)fabsq(X / (1 + X)), J().f("n", n)); }
+  { double e2 = genpar(1e-16, 0.9999, 9999.0); if ((idx % 8) == 0) e2 = (double)(F * (2 - F)); q128 X = e2;
+    chk("EccentricitySqToFlattening", Ellipsoid::EccentricitySqToFlattening(e2), q_f_from_e2(X), 1 + 0.5 * (double)fabsq(X / (1 - X)), J().f("e2", e2)); }
+  { double ep2 = genpar(1e-16, 9999.0, 0.9999); q128 X = ep2; chk("SecondEccentricitySqToFlattening", Ellipsoid::SecondEccentricitySqToFlattening(ep2), q_f_from_ep2(X), 1 + 0.5 * (double)fabsq(X / (1 + X)), J().f("ep2", ep2)); }
+  { double x = genpar(1e-16, 0.9999, 0.9999); q128 X = x; chk("ThirdEccentricitySqToFlattening", Ellipsoid::ThirdEccentricitySqToFlattening(x), q_f_from_epp2(X), 1 + (double)fabsq(X / ((1 - X) * (1 + X))), J().f("epp2", x)); }
+  // ---- round trips f -> x -> f through every pair of static functions (two roundings)
+  {
+    struct RT { const char* n; double (*fw)(double); double (*bk)(double); };
+    static const RT rts[] = {{"f->f'->f", &Ellipsoid::FlatteningToSecondFlattening, &Ellipsoid::SecondFlatteningToFlattening}, {"f->n->f", &Ellipsoid::FlatteningToThirdFlattening, &Ellipsoid::ThirdFlatteningToFlattening},
+      {"f->e2->f", &Ellipsoid::FlatteningToEccentricitySq, &Ellipsoid::EccentricitySqToFlattening}, {"f->e'2->f", &Ellipsoid::FlatteningToSecondEccentricitySq, &Ellipsoid::SecondEccentricitySqToFlattening},
+      {"f->e''2->f", &Ellipsoid::FlatteningToThirdEccentricitySq, &Ellipsoid::ThirdEccentricitySqToFlattening}};
+    // condition number of the return map w.r.t. the single rounding of the intermediate value (|x f'(x)/f|), from the exact relations
+    q128 G1 = 1 - F; const q128 cnds[5] = {fabsq(G1), fabsq(1 - F / 2), fabsq((2 - F) / (2 * G1)), fabsq((2 - F) * G1 / 2), fabsq((2 - F) * (1 + G1 * G1) / (4 * G1))};
+    int ti = 0;
+    for (const RT& t : rts) { double mid = t.fw(f), back = t.bk(mid);
+      double cond = 1 + (double)cnds[ti++];
+      double e = f == 0 ? (back == 0 ? 0 : HUGE_VAL) : std::fabs(back - f) / std::fabs(f) / EPS;
+      c.obs(std::string("ellipsoid-static round trip ") + t.n + " rel err / conditioning [eps]", e / cond, J(w).f("mid", mid).f("back", back));
+      if (!(e <= K_MEASURE * cond)) VIOL(c, std::string("law:C15/ellipsoid-static/roundtrip/") + t.n, cls, J(w).f("mid", mid).f("back", back).f("err_eps", e)); }
+  }
+  // ---- instance inspectors and the constructors of Ellipsoid / AuxLatitude with this f (b/a kept inside [0.01, 100])
+  if (f > -99 && f < 0.99) {
+    double a = r.pick(A_LADDER); Ellipsoid E(a, f); q128 A = a, B = A * (1 - F);
+    J w2(w); w2.f("a", a);
+    rel_check(c, "ellipsoid/PolarRadius", cls, E.PolarRadius(), B, 1, w2);
+    rel_check(c, "ellipsoid/SecondFlattening", cls, E.SecondFlattening(), F / (1 - F), K_MEASURE * (1 + (double)fabsq(F / (1 - F))), w2);
+    rel_check(c, "ellipsoid/ThirdFlattening", cls, E.ThirdFlattening(), F / (2 - F), K_MEASURE, w2);
+    rel_check(c, "ellipsoid/EccentricitySq", cls, E.EccentricitySq(), F * (2 - F), K_MEASURE, w2);
+    rel_check(c, "ellipsoid/SecondEccentricitySq", cls, E.SecondEccentricitySq(), F * (2 - F) / ((1 - F) * (1 - F)), K_MEASURE * (1 + (double)fabsq(F * (2 - F) / ((1 - F) * (1 - F)))), w2);
+    rel_check(c, "ellipsoid/ThirdEccentricitySq", cls, E.ThirdEccentricitySq(), F * (2 - F) / (1 + (1 - F) * (1 - F)), K_MEASURE * 2, w2);
+    rel_check(c, "ellipsoid/Volume", cls, E.Volume(), 4 * M_PIq * A * A * B / 3, K_MEASURE, w2);
+    if ((idx % 4) == 1) {
+      // the full reference ellipsoid (quadratures) for this f: measures and one exact conversion to every auxiliary latitude
+      ref::AuxRef R(A, B); AuxLatitude L(a, f);
+      rel_check(c, "ellipsoid/QuarterMeridian", cls, E.QuarterMeridian(), R.quarter_meridian(), K_MEASURE, w2);
+      rel_check(c, "ellipsoid/Area", cls, E.Area(), R.area(), K_MEASURE, w2);
+      rel_check(c, "cross/AuxLatitude::RectifyingRadius(exact)", cls, L.RectifyingRadius(true), R.rectifying_radius(), K_MEASURE, w2);
+      rel_check(c, "cross/AuxLatitude::AuthalicRadiusSquared(exact)", cls, L.AuthalicRadiusSquared(true), R.authalic_radius_sq(), K_MEASURE, w2);
+      bool ser = std::fabs(f) <= 1.0 / 150;
+      if (ser) { rel_check(c, "cross/AuxLatitude::RectifyingRadius(series)", cls, L.RectifyingRadius(false), R.rectifying_radius(), K_MEASURE, w2);
+        rel_check(c, "cross/AuxLatitude::AuthalicRadiusSquared(series)", cls, L.AuthalicRadiusSquared(false), R.authalic_radius_sq(), K_MEASURE, w2); }
+      double t = r.logu(1e-3, 1e3); q128 T = t; double ba = 1 - f;
+      for (int to = 1; to < 6; ++to) for (int meth = 0; meth < (ser ? 2 : 1); ++meth) {
+        AuxAngle o = L.Convert(0, to, AuxAngle(t), meth == 0); q128 Tr = R.fwd(to, T);
+        double e = tan_err_eps(o.y(), o.x(), Tr), cond = to == ref::AUX_CHI ? chi_cond(R, T) : 1;
+        Regime rg_(auxlat_regime(ba, f, meth == 0, to == ref::AUX_XI, 0, T));
+        c.count(std::string("flat-conv/") + (meth ? "series/" : "exact/") + AUXN[to] + "/" + cls, vh::hmix(vh::hmix(62, f), t) + to * 2 + meth);
+        c.obs(std::string("auxlat (f log-uniform) ") + (meth ? "series" : "exact") + " phi->" + AUXN[to] + " rel err tan / conditioning [eps]", e / cond, J(w2).f("tan_phi", t));
+        if (!(e <= (meth ? K_SERIES : K_EXACT) * cond)) VIOL(c, std::string("oracle:C15/auxlat/") + (meth ? "series" : "exact") + "/phi->" + AUXN[to], cls, J(w2).f("tan_phi", t).f("out_y", o.y()).f("out_x", o.x()).str("tan_ref", ref::qstr(Tr)).f("err_eps", e));
+      }
+    }
+  }
 }
 
 // ================================================================ section: cross  (same quantity from different classes)
